@@ -272,7 +272,7 @@ func verifH_C17_schema_nested() {
 	verifReach("end")
 }
 
-//verif:harness id=C17 tier=quick,thorough witness=end bounds="non-body parameter in query/header/path, primitive or array (items leaf), every scalar field symbolic -> ToV3Parameter -> name, in, required (path => true), description and constraints at their v3 places -> FromV3Parameter -> equals the original"
+//verif:harness id=C17 tier=quick,thorough witness=end bounds="non-body parameter in query/header/path, primitive or array (items leaf; collectionFormat in {absent,csv,multi,pipes,ssv}), every scalar field symbolic -> ToV3Parameter -> name, in, required (path => true), description and constraints at their v3 places -> FromV3Parameter -> equals the original"
 func verifH_C17_parameter() {
 	verifPtrs = verifChoose("optionalFields", 2) == 1
 	in := []string{"query", "header", "path"}[verifChoose("in", 3)]
@@ -288,6 +288,9 @@ func verifH_C17_parameter() {
 		p.MinItems = verifNondetUint64("minItems")
 		p.MaxItems = verifU64p("maxItems")
 		p.UniqueItems = verifNondetBool("unique")
+		if in != "path" {
+			p.CollectionFormat = []string{"", "csv", "multi", "pipes", "ssv"}[verifChoose("collectionFormat", 5)]
+		}
 	} else {
 		p.Type = &openapi3.Types{[]string{"string", "integer", "number", "boolean"}[verifChoose("type", 4)]}
 		p.Format = verifStr("format", 1)
@@ -320,6 +323,21 @@ func verifH_C17_parameter() {
 	verifAssert(ok, "C17 parameter: every constraint appears in the v3 schema")
 	if isArray {
 		verifAssert(s.Items != nil && s.Items.Value != nil && s.Items.Value.MinLength == p.Items.Value.MinLength && s.Items.Value.Title == p.Items.Value.Title, "C17 parameter: array items keep their constraints")
+		// how the items travel: csv (the default) = form not exploded, multi = form exploded,
+		// pipes = pipeDelimited, ssv = spaceDelimited (header parameters: csv only)
+		if p.CollectionFormat != "" && p.CollectionFormat != "csv" {
+			sm, smErr := v.SerializationMethod()
+			wantStyle, wantExplode := "form", p.CollectionFormat == "multi"
+			switch p.CollectionFormat {
+			case "pipes":
+				wantStyle = "pipeDelimited"
+			case "ssv":
+				wantStyle = "spaceDelimited"
+			}
+			verifKnown("C17-collectionFormat-dropped", true)
+			verifAssert(smErr == nil && in == "query" && sm.Style == wantStyle && sm.Explode == wantExplode, "C17 parameter: collectionFormat becomes the corresponding style and explode")
+			verifKnown("C17-collectionFormat-dropped", false)
+		}
 	}
 	back, err := FromV3Parameter(p3, &openapi3.Components{})
 	verifAssert(err == nil && back != nil, "C17 parameter: converts back")
@@ -333,6 +351,11 @@ func verifH_C17_parameter() {
 	verifAssert(ok, "C17 parameter: the round trip gives the same parameter with the same constraints")
 	if isArray {
 		verifAssert(back.Items != nil && back.Items.Value != nil && back.Items.Value.MinLength == p.Items.Value.MinLength, "C17 parameter: array items survive the round trip")
+		if p.CollectionFormat != "" && p.CollectionFormat != "csv" {
+			verifKnown("C17-collectionFormat-dropped", true)
+			verifAssert(back.CollectionFormat == p.CollectionFormat, "C17 parameter: collectionFormat survives the round trip")
+			verifKnown("C17-collectionFormat-dropped", false)
+		}
 	}
 	verifReach("end")
 }
